@@ -11,6 +11,26 @@ from xonsh.parsers import ast
 from xonsh.parsers.ast import xonsh_call
 
 
+def _decode_escapes(text):
+    """Decode the backslash escapes of a literal part of an f-string.
+
+    The text is re-quoted for ``pyparse``; quote characters in it (legal in a
+    triple-quoted f-string) are escaped first, so that they can neither end the
+    literal early (``f'''a''{x}'''``) nor run into the closing quotes.
+    """
+    out = []
+    i = 0
+    while i < len(text):
+        c = text[i]
+        if c == "\\" and i + 1 < len(text):
+            out.append(text[i : i + 2])
+            i += 2
+            continue
+        out.append('\\"' if c == '"' else c)
+        i += 1
+    return pyparse('"""' + "".join(out) + '"""').body[0].value.value
+
+
 class FStringRules:
     """Mixin providing PEP 701 f-string grammar rules for the xonsh PLY parser."""
 
@@ -23,7 +43,6 @@ class FStringRules:
         s1 = p.slice[1]
         fstart = s1.value
         prefix = fstart.rstrip("'\"").lower()
-        quote = fstart[len(fstart.rstrip("'\"")) :]
         is_raw = "r" in prefix
         values = p[2]
         # Process escape sequences in FSTRING_MIDDLE Constant values
@@ -31,9 +50,7 @@ class FStringRules:
             for node in values:
                 if isinstance(node, ast.Constant) and isinstance(node.value, str):
                     try:
-                        node.value = (
-                            pyparse(quote + node.value + quote).body[0].value.value
-                        )
+                        node.value = _decode_escapes(node.value)
                     except SyntaxError:
                         pass
         s = ast.JoinedStr(
